@@ -5,5 +5,5 @@ GInit == Init /\ hist = <<act>>
 GNext == Next /\ hist' = Append(hist, act')
 GSpec == GInit /\ [][GNext]_<<vars, hist>>
 PathOut == PrintT(ToJson([h |-> hist, a |-> act', o |-> obs']))
-StateOut == PrintT(ToJson([sh |-> hist, total |-> Total(left), cons |-> ConsNormal(left)]))
+StateOut == PrintT(ToJson([sh |-> hist, total |-> Total(left), cons |-> ConsNormal(left), setup |-> SetupOf(left)]))
 =============================================================================
